@@ -372,7 +372,9 @@ fn sub_strategy() -> impl Strategy<Value = MorxSub> {
             prop_oneof![5 => 0u16..6, 3 => Just(0xFFFFu16), 1 => any::<u16>()],
             prop_oneof![5 => 0u16..6, 3 => Just(0xFFFFu16), 1 => any::<u16>()],
         );
-        let subst = (prop_oneof![Just(0u8), Just(2), Just(4), Just(6), Just(8), Just(10)], proptest::collection::vec((0u8..CLASSED as u8, prop_oneof![8 => 1u16..60, 1 => Just(0xFFFFu16), 1 => any::<u16>()]), 0..6));
+        // substitution values: glyphs of the font, 0xFFFF (the AAT "deleted glyph": well-formed, the
+        // glyph is to be removed from the run), or anything
+        let subst = (prop_oneof![Just(0u8), Just(2), Just(4), Just(6), Just(8), Just(10)], proptest::collection::vec((0u8..CLASSED as u8, prop_oneof![7 => 1u16..60, 2 => Just(0xFFFFu16), 1 => any::<u16>()]), 0..6));
         // ligature actions: offset (30 bit, signed) small around zero, LAST / STORE bits
         let action = (prop_oneof![8 => 0u32..16, 1 => Just(0x3FFF_FFFFu32), 1 => any::<u32>()], any::<bool>(), proptest::bool::weighted(0.3))
             .prop_map(|(off, last, store)| (off & 0x3FFF_FFFF) | if last { 0x8000_0000 } else { 0 } | if store { 0x4000_0000 } else { 0 });
